@@ -13,6 +13,7 @@ Bind:   (code -> spec) seeded random systems (tumbling rigid bodies, point masse
 from __future__ import annotations
 
 import contextlib
+import json
 import io
 import os
 import shutil
@@ -365,11 +366,14 @@ def run(ctx):
         ctx.violation(f"{w['kind']}:{clause}", f"{clause}: {w}", w)
     nfiles = sum(len(r["entries"]) for r in records)
     ctx.log(f"[C29] protocol model: {r1.distinct} states (intended) / shared-name design rejected; {nsess * 2} export sessions, {ncalls} calls, {nfiles} data files read back, frames per session {frames}; {len(bad)} calls rejected")
-    ctx.coverage = {"states": r1.distinct + rt.distinct, "transitions": max(r1.generated + rt.generated, 1), "traces_validated_against_impl": len(records),
+    nontrivial = {json.dumps(r["entries"], sort_keys=True, default=str) for r in records if r.get("entries")}
+    ctx.coverage = {"evaluations": len(records), "distinct_nontrivial": len(nontrivial),
+                    "states": r1.distinct + rt.distinct, "transitions": max(r1.generated + rt.generated, 1), "traces_validated_against_impl": len(records),
                     "samples": [{"where": wheres[1], "entries": records[0]["entries"][:2]}], "data_files_read_back": nfiles, "frames_per_session": frames,
                     "rule": "per session 12 export calls in random order: rigid bodies (one of them twice), list of point masses, meshed box and the same box as base export, "
                             "moving frame, dead load with offset, sphere-plane contact, the same file_name twice, a list starting with an already exported body; binary and ASCII; "
-                            "random frame rates (frac from 1 to rows)"}
+                            "random frame rates (frac from 1 to rows); evaluations = export calls recorded and validated by TLC; distinct_nontrivial = calls "
+                            "with a distinct, non-empty list of collection entries"}
     ctx.assumptions = ["file contents are compared with geometry recomputed by the harness (quaternion kinematics of its own) at 2e-6 relative (VTK stores points as float32)",
                        "the contact is checked on points, g_N and P_N, the box on points; rods are exported as centerline + directors on a synthetic solution and compared with the rod's own cross-section kinematics"]
 
